@@ -326,7 +326,7 @@ def cat(*segs):
             merged[-1] = slice_(s[2], merged[-1][3], s[4])
         else:
             merged.append(s)
-    out = merged
+    out = _merge_byte_runs(merged)
     if not out:
         # type unknown: choose bytes if any seg typed bytes else str
         for s in segs:
@@ -336,6 +336,71 @@ def cat(*segs):
     if len(out) == 1:
         return out[0]
     return ('op', 'CAT') + tuple(out)
+
+
+def _byte_of(e):
+    """(source, k, masked) when e selects byte k of a non-negative-or-refused integer: (src >> 8k) & 255, (src // 256**k) % 256
+    (masked) or the unmasked src >> 8k / src // 256**k (everything from byte k upwards); else None."""
+    def shifted(x):
+        if is_op(x, 'RSHIFT') and is_const(x[3]) and isinstance(x[3][1], int) and x[3][1] > 0 and x[3][1] % 8 == 0:
+            return x[2], x[3][1] // 8
+        if is_op(x, 'FLOORDIV') and is_const(x[3]) and isinstance(x[3][1], int) and x[3][1] > 1:
+            d, k = x[3][1], 0
+            while d % 256 == 0:
+                d //= 256
+                k += 1
+            if d == 1:
+                return x[2], k
+        return x, 0
+    if is_op(e, 'BITAND') and const(255) in (e[2], e[3]):
+        x = e[3] if e[2] == const(255) else e[2]
+        src, k = shifted(x)
+        return src, k, True
+    if is_op(e, 'MOD') and e[3] == const(256):
+        src, k = shifted(e[2])
+        return src, k, True
+    src, k = shifted(e)
+    if k:
+        return src, k, False
+    return None
+
+
+def _merge_byte_runs(segs):
+    """Adjacent one-byte serialisations of consecutive bytes of one integer are its multi-byte serialisation:
+    SER(n & 255, 1) ++ SER(n >> 8, 1) = SER(n, 2, little) (same refusals: n >> 8 fits one byte iff n fits two)."""
+    out, i = [], 0
+    while i < len(segs):
+        s = segs[i]
+        run = None
+        if is_op(s, 'SER') and s[3] == const(1):
+            b0 = _byte_of(s[2])
+            if b0 is not None:
+                j, items = i, []
+                while j < len(segs) and is_op(segs[j], 'SER') and segs[j][3] == const(1):
+                    bj = _byte_of(segs[j][2])
+                    if bj is None or bj[0] != b0[0]:
+                        break
+                    items.append(bj)
+                    j += 1
+                ks = [k for _, k, _ in items]
+                m = len(items)
+                if m >= 2:
+                    for order, seq in (('little', ks), ('big', ks[::-1])):
+                        if seq == list(range(m)):
+                            its = items if order == 'little' else items[::-1]
+                            if all(mk for _, _, mk in its[:-1]):
+                                src = b0[0]
+                                if its[-1][2]:      # top byte masked too: the value is truncated to m bytes
+                                    src = ('op', 'BITAND', src, const(256 ** m - 1))
+                                run = (ser(src, const(m), const(order)), j)
+                            break
+        if run is not None:
+            out.append(run[0])
+            i = run[1]
+        else:
+            out.append(s)
+            i += 1
+    return out
 
 
 def _norm_index(i, n):
@@ -524,6 +589,8 @@ def getitem(t, idx):
 
 def ser(n, width, order):
     """n.to_bytes(width, order)"""
+    if width == const(1) and order in (const('little'), const('big')):
+        order = const('big')        # one byte reads the same in both orders: one canonical spelling
     if _all_const(n, width, order) and isinstance(n[1], int) and not isinstance(n[1], bool):
         try:
             return const(n[1].to_bytes(width[1], order[1]))
@@ -539,6 +606,8 @@ def ser(n, width, order):
 
 def int_(b, order):
     """int.from_bytes(b, order)"""
+    if order in (const('little'), const('big')) and length_of(b) == 1:
+        order = const('big')        # one byte reads the same in both orders
     if _all_const(b, order) and isinstance(b[1], bytes):
         return const(int.from_bytes(b[1], order[1]))
     if is_op(b, 'SER') and b[4] == order:
@@ -740,6 +809,10 @@ def _cmp_const(a, b):
 
 
 def eq(a, b):
+    if is_op(a, 'BARR'):        # a bytearray equals the bytes it holds
+        a = a[2]
+    if is_op(b, 'BARR'):
+        b = b[2]
     if a == b and not _contains_opaque(a):
         return TRUE
     # injective encodings: equal encodings (same form) of equal things
@@ -910,6 +983,63 @@ class BudgetExceeded(Exception):
     pass
 
 
+# ----------------------------------------------------------------------------
+# equality of DAG-shaped terms: Python compares (and hashes) nested tuples as trees, which is exponential on values
+# whose alternatives share sub-terms; `same` compares by a structural hash cached per object and, when the hashes
+# agree, by a comparison memoised on pairs of objects.  Same answers as `==`.
+# ----------------------------------------------------------------------------
+_THASH = {}
+
+
+def thash(t):
+    if type(t) is not tuple:
+        try:
+            return hash(t)
+        except TypeError:
+            return id(t)
+    e = _THASH.get(id(t))
+    if e is not None and e[0] is t:
+        return e[1]
+    if len(_THASH) > 3000000:
+        _THASH.clear()
+    h = hash(tuple([thash(x) for x in t]))
+    _THASH[id(t)] = (t, h)
+    return h
+
+
+def same(a, b):
+    if a is b:
+        return True
+    if type(a) is not tuple or type(b) is not tuple:
+        return a == b
+    if len(a) != len(b) or thash(a) != thash(b):
+        return False
+    return _deep_same(a, b, {})
+
+
+def _deep_same(a, b, memo):
+    if a is b:
+        return True
+    if type(a) is not tuple or type(b) is not tuple:
+        return a == b
+    if len(a) != len(b):
+        return False
+    k = (id(a), id(b))
+    r = memo.get(k)
+    if r is not None:
+        return r
+    if thash(a) != thash(b):
+        memo[k] = False
+        return False
+    r = True
+    for x, y in zip(a, b):
+        if not _deep_same(x, y, memo):
+            r = False
+            break
+    memo[k] = r
+    return r
+
+
 PHI_BUDGET = [0, 4000000]      # [constructed so far, limit]; reset per Evaluator
 
 
@@ -921,29 +1051,29 @@ def phi(c, a, b):
         return a
     if c == FALSE:
         return b
-    if a == b:
+    if same(a, b):
         return a
     if is_op(c, 'NOT'):
         return phi(c[2], b, a)
     # phi(c, phi(c, x, y), z) -> phi(c, x, z)
-    if tag(a) == 'phi' and a[1] == c:
+    if tag(a) == 'phi' and same(a[1], c):
         a = a[2]
-    if tag(b) == 'phi' and b[1] == c:
+    if tag(b) == 'phi' and same(b[1], c):
         b = b[3]
-    if a == b:
+    if same(a, b):
         return a
     if a == TRUE and b == FALSE:
         return c
     if a == FALSE and b == TRUE:
         return not_(c)
     # x == y ? y : x  is x  (where they are equal either name will do: "skip the work if already normalised")
-    if is_op(c, 'EQ') and len(c) == 4 and {a, b} == {c[2], c[3]}:
+    if is_op(c, 'EQ') and len(c) == 4 and ((same(a, c[2]) and same(b, c[3])) or (same(a, c[3]) and same(b, c[2]))):
         return b
     # fixed-shape sequences of equal length (and mappings with the same keys) are joined element by element
     if tag(a) in ('list', 'tuple') and tag(b) == tag(a) and len(a[1]) == len(b[1]):
-        return (a[0], tuple(x if x == y else phi(c, x, y) for x, y in zip(a[1], b[1])))
+        return (a[0], tuple(x if same(x, y) else phi(c, x, y) for x, y in zip(a[1], b[1])))
     if tag(a) == 'dict' and tag(b) == 'dict' and [k for k, _ in a[1]] == [k for k, _ in b[1]]:
-        return ('dict', tuple((k, (x if x == y else phi(c, x, y))) for (k, x), (_, y) in zip(a[1], b[1])))
+        return ('dict', tuple((k, (x if same(x, y) else phi(c, x, y))) for (k, x), (_, y) in zip(a[1], b[1])))
     return ('phi', c, a, b)
 
 
@@ -997,6 +1127,8 @@ def is_(a, b):
 
 
 def len_(t):
+    if is_op(t, 'BARR'):
+        t = t[2]
     n = length_of(t)
     if n is not None:
         return const(n)
